@@ -12,6 +12,7 @@ import Iodata.Lemmas.Fmt.PoscarW
 import Iodata.Lemmas.Fmt.FchkO
 import Iodata.Lemmas.Fmt.WfnS
 import Iodata.Lemmas.Fmt.WfxS
+import Iodata.Lemmas.Fmt.Qcs
 import Iodata.Gen.LayoutsW
 
 namespace Iodata.Props.C02W
@@ -247,6 +248,31 @@ theorem wfx_source_shape :
 example : WfxS.Dom wfxL [⟨"<Title>".toList, .text [" t ".toList]⟩, ⟨"<Primitive Centers>".toList, .ints 10 (List.replicate 11 1)⟩,
     ⟨"<Primitive Exponents>".toList, .reals 4 [some ⟨false, 123456789012345, 2⟩, none, some ⟨true, 100000000000000, -3⟩, some ⟨false, 0, 0⟩, some ⟨false, 5, 0⟩]⟩,
     ⟨WfxS.moTag, .mo 4 [List.replicate 5 (some ⟨false, 100000000000000, 0⟩), List.replicate 5 (some ⟨true, 200000000000000, 0⟩)]⟩] := by
+  decide +kernel
+
+/-! ## QCSchema JSON, molecule core (dictionary level) -/
+
+/-- QCSchema molecule: reading the written dictionary returns every mapped attribute with its value: atomic numbers
+through the symbols, the flattened geometry, charge, `spinpol` through the multiplicity (`+ 1` / `− 1`), the title when
+not empty, masses, connectivity, the symmetry number when not zero, every passed-through sub-key of `extra["molecule"]`,
+the unparsed keys; core charges come back as "atomic number or ghost" through `real`; absent charge / multiplicity as the
+reader's defaults; the provenance trail one entry longer.  For all key tables satisfying `KeysOK` and every object. -/
+theorem qcschema_load_dump (T : Tables) (K : Qcs.Keys) (known : List Str) (reshapes : Bool) (hK : Qcs.KeysOK K K known) (m : Qcs.Mol)
+    (h : Qcs.Dom T K known reshapes m) : Qcs.load T K known reshapes (Qcs.dump T K m) = .ok (Qcs.norm K.pass m) :=
+  Qcs.load_dump T K known reshapes hK m h
+
+/-- QCSchema molecule: the key tables of writer and reader read from the source coincide (same JSON key for every core
+attribute, same pass-through pairs), all keys are distinct and known to `_find_passthrough_dict`, all 118 elements map
+back through `sym2num[symbol.title()]`, and the value conversions in the source are the ones the model transcribes. -/
+theorem qcschema_keys_ok :
+    qcsW = qcsR ∧ Qcs.KeysOK qcsW qcsR qcsKnown ∧ (∀ z ∈ List.range' 1 118, Qcs.okZ tables z = true) ∧
+    qcsExprs = Qcs.expectedExprs ∧ qcsBondsExpr = Qcs.bondsExprs.getD (if qcsReshapes then 1 else 0) [] := by
+  decide +kernel
+
+/-- non-vacuity: water with a ghost atom, half-integral spin, a bond, a passed-through comment, an unparsed key. -/
+example : Qcs.Dom tables qcsW qcsKnown false ⟨[8, 1, 1], List.replicate 9 ⟨false, 1, 2⟩, some ⟨false, -1, 1⟩, some ⟨false, 1, 2⟩, some ['w'],
+    [⟨false, 6, 1⟩, ⟨false, 0, 1⟩, ⟨false, 1, 1⟩], none, some [(0, 1, 1)], some ⟨true, 0, 1⟩,
+    [("comment".toList, "\"c\"".toList)], .one "{}".toList, [("my_key".toList, "[1]".toList)]⟩ := by
   decide +kernel
 
 end Iodata.Props.C02W
